@@ -13,7 +13,14 @@
     pool verdict <N> <fault kind> returned <n> <dups> <carried>
     pool verdict <N> <fault kind> raised <ms> 0 0
     pool verdict <N> <fault kind> blocked 0 0 0          → `ok` | `violation <key>`
-    pool stopverdict <W> <exited>                        → `ok` | `violation stop-does-not-join`
+    pool predict-call <W> <failcode> <N> <fault>*        → same for ONE `play_many_games(cfg, N)` call
+        (try: play_many finally: stop()): `returns` | `raises` (RuntimeError or queue.Full) | `hangs`
+    pool predict-stop …                                  → as `predict`, but a raising request is
+        `raises/stop-returns` or `raises/stop-raises`: what the `stop()` that follows does
+        (`Tak.Pool.stopAfterRaise` on the |cmd| of the raising state).  Both are loud; the property does
+        not care which, so the tie uses `predict` and only records agreement with this finer answer.
+    pool stopverdict <W> <exited> <after: returned|raised> <returned|raised|blocked>
+                                                         → `ok` | `violation stop-does-not-join|stop-hangs-after-failure`
     pool run <N> <W> <failcode> <act>*                   → state after the actions | `disabled <i>`
 -/
 import TakVerif.Driver.Ser
@@ -66,7 +73,9 @@ def succs (c : Cfg) (fs : List Fault) (x : X) : List X :=
 
 structure Acc where
   dones : List X := []
-  raises : Bool := false
+  raises : Bool := false       -- some raising state exists
+  stopOk : Bool := false       -- … at which the following `stop()` returns
+  stopFull : Bool := false     -- … at which the following `stop()` raises `queue.Full`
   hangs : Bool := false
 
 /-- worklist exploration of one request; `none` when the fuel runs out -/
@@ -82,7 +91,10 @@ def explore (c : Cfg) (fs : List Fault) : Nat → List X → Std.HashSet X → A
         | some s' => s'.phase == .raised
         | none => false
       let nxt := succs c fs x
+      let sr := stopAfterRaise false (2 * c.W) x.s.cmd c.W
       let acc := { acc with raises := acc.raises || raisesHere,
+                            stopOk := acc.stopOk || (raisesHere && sr == .joined),
+                            stopFull := acc.stopFull || (raisesHere && sr == .full),
                             hangs := acc.hangs || (nxt.isEmpty && !raisesHere) }
       let (rest, seen) := nxt.foldl (fun (p : List X × Std.HashSet X) y =>
         if p.2.contains y then p else (y :: p.1, p.2.insert y)) (rest, seen)
@@ -101,14 +113,19 @@ def applyKills (c : Cfg) (fs : List Fault) (r : Nat) (x : X) : X :=
     | _ => x) x
 
 /-- outcome sequences for requests `ns` (request index `r`, 1-based) from the start states `xs` -/
-def outcomes (W : Nat) (fc : Int) (fs : List Fault) : List Nat → Nat → List X → Option (List String)
+def outcomes (call : Bool) (W : Nat) (fc : Int) (fs : List Fault) : List Nat → Nat → List X → Option (List String)
   | [], _, _ => some [""]
   | n :: ns, r, xs => do
     let c : Cfg := { N := n, W := W, failCode := fc }
     let starts := dedupX (xs.map fun x => applyKills c fs r { x with s := x.s.nextRequest n })
     let acc ← explore c fs fuel0 starts (Std.HashSet.ofList starts) {}
-    let tail ← if acc.dones.isEmpty then some [] else outcomes W fc fs ns (r + 1) acc.dones
-    let here := (if acc.raises then ["raises"] else []) ++ (if acc.hangs then ["hangs"] else [])
+    let tail ← if acc.dones.isEmpty then some [] else outcomes call W fc fs ns (r + 1) acc.dones
+    -- `call` = the whole `play_many_games` call (try/finally stop()): any exception is `raises`
+    let raisesWords :=
+      if call then (if acc.raises then ["raises"] else [])
+      else (if acc.stopOk then ["raises/stop-returns"] else []) ++
+           (if acc.stopFull then ["raises/stop-raises"] else [])
+    let here := raisesWords ++ (if acc.hangs then ["hangs"] else [])
     let cont := tail.map fun t => if t = "" then "returns" else "returns," ++ t
     some (dedup (here ++ cont))
 where
@@ -149,16 +166,20 @@ def showVerdict : Option String → String
   | none => "ok"
   | some k => "violation " ++ k
 
-def handle : List String → Option String
-  | "predict" :: w :: fc :: ns :: faults => do
+def predictH (call : Bool) (w fc ns : String) (faults : List String) : Option String := do
     let W ← w.toNat?
     let fc ← fc.toInt?
     let ns ← parseNats ns
     let fs ← faults.mapM parseFault
     if W = 0 ∨ ns.isEmpty then none
     let x0 : X := { s := fresh { N := 0, W := W, failCode := fc }, taken := List.replicate W 0 }
-    let out ← outcomes W fc fs ns 1 [x0]
+    let out ← outcomes call W fc fs ns 1 [x0]
     some ("ok " ++ "|".intercalate (sortStrings out))
+
+def handle : List String → Option String
+  | "predict" :: w :: fc :: ns :: faults => predictH true w fc ns faults
+  | "predict-call" :: w :: fc :: ns :: faults => predictH true w fc ns faults
+  | "predict-stop" :: w :: fc :: ns :: faults => predictH false w fc ns faults
   | ["verdict", n, kind, what, a, dups, carried] => do
     let N ← n.toNat?
     let kind ← parseKind kind
@@ -171,8 +192,12 @@ def handle : List String → Option String
       | "blocked" => some Outcome.blocked
       | _ => none
     some (showVerdict (verdict { N := N, fault := kind, outcome := oc, dups := dups, carried := carried }))
-  | ["stopverdict", w, e] => do
-    some (showVerdict (stopVerdict (← w.toNat?) (← e.toNat?)))
+  | ["stopverdict", w, e, after, what] => do
+    let af ← match after with | "returned" => some false | "raised" => some true | _ => none
+    let o ← match what with
+      | "returned" => some StopObs.returned | "raised" => some StopObs.raised
+      | "blocked" => some StopObs.blocked | _ => none
+    some (showVerdict (stopVerdict (← w.toNat?) (← e.toNat?) af o))
   | "run" :: n :: w :: fc :: acts => do
     let c : Cfg := { N := ← n.toNat?, W := ← w.toNat?, failCode := ← fc.toInt? }
     let acts ← acts.mapM parseAct
